@@ -300,6 +300,10 @@ class World:
             else:
                 t2["version"] = (t2["version"] + 1) % 2**32
             body = tm.ser_tx(t2).hex()
+        elif kind == "bitflip":
+            bb = bytearray(raw)
+            bb[a % len(bb)] ^= 1 << (resp.get("bit", 0) % 8)
+            body = bytes(bb).hex()
         elif kind == "truncate":
             body = raw[: a % (len(raw) + 1)].hex()
         elif kind == "garbage_hex":
@@ -415,6 +419,19 @@ def _execute(plan, w, tr):
             tr.ev("client", "fetch", f"{txid[:8]}|{net}|{st.get('fresh', False)}|{kind if reached else 'cache'}|{out}")
             tr.state("fetch", kind if reached else "cache", out.split(":")[0], ent["segwit"], ent["canonical"])
             outcomes.append(out)
+            if r is not None and reached and w.served and w.served[-1][0] == txid:
+                # F1 on the delivered bytes: whatever the fetcher accepted must hash (witness-stripped, by the reference) to the requested id
+                body = w.served[-1][1].strip()
+                try:
+                    served_raw = bytes.fromhex(body)
+                    rtx, _sw, _end = tm.parse_tx_at(served_raw, 0, strict=False)
+                    served_id = tm.txid(rtx).hex()
+                except Exception:
+                    served_id = None
+                # not an oracle: the property speaks of the returned *object* (checked below); bytes that only differ by a push
+                # encoding the parser normalises (PUSHDATA1 for a short push) legitimately yield the genuine transaction
+                if served_id is not None and served_id != txid:
+                    tr.probe("accepted_after_normalising_noncanonical_bytes")
             if r is not None:
                 tr.oracle("F1")
                 try:
@@ -547,13 +564,13 @@ def _execute(plan, w, tr):
 
 # ------------------------------------------------------------------------------------------------
 
-RESP_KINDS = ["wrong_tx", "tweaked_field", "truncate", "garbage_hex", "not_hex", "empty", "trailing", "whitespace_upper", "witness_stripped", "witness_malleated", "noncanonical_reencode",
+RESP_KINDS = ["bitflip", "bitflip", "wrong_tx", "tweaked_field", "truncate", "garbage_hex", "not_hex", "empty", "trailing", "whitespace_upper", "witness_stripped", "witness_malleated", "noncanonical_reencode",
               "http_error", "timeout", "urlerror", "slow"]
 
 
 def gen_resp(ch, enabled):
     k = ch.choice(enabled)
-    return {"kind": k, "a": ch.randrange(0, 100000), "latency": ch.choice([0.01, 0.05, 0.5, 3.0])}
+    return {"kind": k, "a": ch.randrange(0, 100000), "bit": ch.randrange(8), "latency": ch.choice([0.01, 0.05, 0.5, 3.0])}
 
 
 def generate(ch, tier, prop):
